@@ -409,6 +409,9 @@ func (r *rewriter) stmt(s ast.Stmt) ast.Stmt {
 				cc.Body = append([]ast.Stmt{wake}, cc.Body...)
 			}
 		}
+		if blocking && selectGateSites[r.site()] {
+			return r.gateSelect(s)
+		}
 	case *ast.LabeledStmt:
 		s.Stmt = r.stmt(s.Stmt)
 	case *ast.AssignStmt:
@@ -433,6 +436,42 @@ func (r *rewriter) stmt(s ast.Stmt) ast.Stmt {
 		r.expr(s.Value)
 	}
 	return s
+}
+
+// Blocking selects whose choice among several READY cases the simulator can decide (Go picks at random). The
+// select is preceded by up to n polls, one case each, in the order simsync.SelectPick dictates; with no order
+// set (the default, every workload but the ones that ask for it) SelectPick answers -1 and the original select
+// runs as it stands.
+var selectGateSites = map[string]bool{"session.go:run": true}
+
+func (r *rewriter) gateSelect(s *ast.SelectStmt) ast.Stmt {
+	n := len(s.Body.List)
+	lit := func(i int) ast.Expr { return &ast.BasicLit{Kind: token.INT, Value: strconv.Itoa(i)} }
+	sel := func() ast.Expr { return ast.NewIdent("verifSel") }
+	notSel := func() ast.Expr { return &ast.UnaryExpr{Op: token.NOT, X: sel()} }
+	out := &ast.BlockStmt{}
+	out.List = append(out.List, &ast.AssignStmt{Lhs: []ast.Expr{sel()}, Tok: token.DEFINE, Rhs: []ast.Expr{ast.NewIdent("false")}})
+	for k := 0; k < n; k++ {
+		sw := &ast.SwitchStmt{
+			Tag: &ast.CallExpr{
+				Fun:  &ast.SelectorExpr{X: ast.NewIdent("simsync"), Sel: ast.NewIdent("SelectPick")},
+				Args: []ast.Expr{&ast.BasicLit{Kind: token.STRING, Value: strconv.Quote(r.site())}, lit(k), lit(n)},
+			},
+			Body: &ast.BlockStmt{},
+		}
+		for i, c := range s.Body.List {
+			cc := c.(*ast.CommClause)
+			body := append([]ast.Stmt{&ast.AssignStmt{Lhs: []ast.Expr{sel()}, Tok: token.ASSIGN, Rhs: []ast.Expr{ast.NewIdent("true")}}}, cc.Body...)
+			poll := &ast.SelectStmt{Body: &ast.BlockStmt{List: []ast.Stmt{
+				&ast.CommClause{Comm: cc.Comm, Body: body},
+				&ast.CommClause{},
+			}}}
+			sw.Body.List = append(sw.Body.List, &ast.CaseClause{List: []ast.Expr{lit(i)}, Body: []ast.Stmt{poll}})
+		}
+		out.List = append(out.List, &ast.IfStmt{Cond: notSel(), Body: &ast.BlockStmt{List: []ast.Stmt{sw}}})
+	}
+	out.List = append(out.List, &ast.IfStmt{Cond: notSel(), Body: &ast.BlockStmt{List: []ast.Stmt{s}}})
+	return out
 }
 
 // expr descends into function literals (their bodies contain statements to rewrite).
